@@ -268,6 +268,11 @@ def render_module(mod, bodies=None, opaque_body=None, extra_items=None):
         out += "    " + r + "\n"
     if extra_items:
         out += extra_items(mod)
+    # bridge modules nested in this one (each is expanded by its own macro invocation)
+    for child in mod.get("_children", []):
+        if "order" not in child:
+            default_order(child)
+        out += "".join("    " + l + "\n" for l in render_module(child, bodies, opaque_body, extra_items).split("\n") if l)
     out += "}\n"
     return out
 
@@ -291,9 +296,19 @@ def render_program(prog, bodies=None, opaque_body=None, extra_items=None, prelud
     tops = prog.get("top_order")
     pieces = []
     for mod in prog["modules"]:
+        mod.pop("_children", None)
+    for mod in prog["modules"]:
+        if mod.get("nested_in") is not None:
+            prog["modules"][mod["nested_in"]].setdefault("_children", []).append(mod)
+    for mod in prog["modules"]:
         if "order" not in mod:
             default_order(mod)
+        if mod.get("nested_in") is not None:
+            pieces.append("")
+            continue
         pieces.append(render_module(mod, bodies, opaque_body, extra_items))
+    for mod in prog["modules"]:
+        mod.pop("_children", None)
     extras = list(prog.get("extra_top", []))
     if tops is None:
         out += "\n".join(pieces) + "\n" + "\n".join(extras) + "\n"
